@@ -184,10 +184,41 @@ def run(tier, chk):
     # the same meaning must come out when identical sub-trees are one shared Python object (as user code and the lifter build them)
     td = sharing_trees(rnd, 2500 if quick else 30000)
     run_space(chk, td, rnd, 8 if quick else 16, [], 'd:trees with repeated sub-trees, built as DAGs', shared=True)
+    rule_conformance(chk, [t for t in ta if t['k'] == 'op'] if not quick else [t for t in ta if t['k'] == 'op' and rnd.random() < 0.5], rnd)
     chk.cov['rule'] = ('trees = reachable one-element stacks of IRGen.tla (typed stack machine) + seeded random deeper trees; '
                        'non-trivial = trees whose simplification differs structurally from the input (or did not terminate)')
     chk.assumptions += ['memory is a byte-addressed little-endian total function (IR.tla InitByte + overrides)',
                         'operators outside IR.Interpreted are uninterpreted functions of their argument values']
+
+
+def _one_step(t):
+    from miasmx.expression.expression_helper import _expr_simp
+    st, r = irlib.guarded(_expr_simp, EJ.from_json(t), 5)
+    if st != 'ok':
+        return (st, {'k': 'none'})
+    try:
+        return ('ok', EJ.to_json(r))
+    except Exception:
+        return ('exc', {'k': 'none'})
+
+
+def rule_conformance(chk, trees, rnd):
+    """C->S at rule granularity: ONE step of the code's simplifier on an operator node against the rule model
+    SimpRules.Step (whose soundness and termination TLC proves on the model, SimpRulesSelf).  A mismatch is not a
+    property violation by itself (the model may lag behind a sound change): the tree is then judged by T_C05 on
+    ALL 2^16 valuations, and the mismatch count is reported in the evidence."""
+    outs = irlib.pmap(_one_step, trees)
+    recs = [{'id': i, 'e': t, 'st': o[0], 'one': o[1]} for i, (t, o) in enumerate(zip(trees, outs))]
+    rnd.shuffle(recs)
+    verdicts, st = core.judge('T_SIMP', recs, timeout=1500)
+    chk.add_tlc(st)
+    chk.cov['traces_validated_against_impl'] += len(recs)
+    chk.cov['rule_model'] = {'single_steps_compared': len(recs), 'mismatches': len(verdicts)}
+    if verdicts:
+        byid = {r['id']: r for r in recs}
+        bad = [byid[v['id']]['e'] for v in verdicts][:300]
+        chk.cov['rule_model']['examples'] = [EJ.show(t) for t in bad[:5]]
+        run_space(chk, bad, rnd, 8, GRID_T, 'e:trees whose single step deviates from the rule model, all 2^16 valuations')
 
 
 def random_trees(rnd, n):
